@@ -211,6 +211,13 @@ func (core *JApiCore) checkPathSchemaProperty(an schema.ASTNode) error {
 				if err := core.checkPathSchemaPropertyUserType(v.Value); err != nil {
 					return err
 				}
+			case schema.TokenTypeString:
+				// The items of an "or" written as "@a | @b" (or as strings) are user type names as well.
+				if strings.HasPrefix(v.Value, "@") {
+					if err := core.checkPathSchemaPropertyUserType(v.Value); err != nil {
+						return err
+					}
+				}
 			case schema.TokenTypeObject:
 				if t, ok := v.Properties.Get("type"); ok {
 					if t.TokenType == "string" &&
